@@ -514,11 +514,12 @@ spif_socket_send(spif_socket_t self, spif_str_t data)
                 break;
             case EIO:
             case EPIPE:
+            case EINVAL:
+            default:
+                /* The descriptor is still open; it must not be forgotten without being closed. */
                 close(self->fd);
                 /* Drop */
             case EBADF:
-            case EINVAL:
-            default:
                 self->fd = -1;
                 SPIF_SOCKET_FLAGS_CLEAR(self, SPIF_SOCKET_FLAGS_IOSTATE);
                 return FALSE;
